@@ -78,9 +78,9 @@ theorem mem_addMatrixRot_wide {D : List Nat} {n1 slots : Nat} {rf : Bool} (hw : 
     rwa [Nat.mod_eq_of_lt (lt_of_le_of_lt (Nat.div_mul_le_self d n1) (hb d hd))]
 
 theorem mem_addMatrixRot_narrow {D : List Nat} {n1 slots : Nat} {rf : Bool} (hn : D.length < 3) {x : Nat} :
-    x ∈ addMatrixRot D n1 slots rf ↔ x ∈ D := by
+    x ∈ addMatrixRot D n1 slots rf ↔ x ∈ D ∧ x ≠ 0 := by
   unfold addMatrixRot
-  rw [if_pos hn]
+  rw [if_pos hn, mem_nz]
 
 /-! ### `FindBestBSGSRatio` returns a power of two (or the impossible 0) -/
 
@@ -150,27 +150,23 @@ theorem split_narrow {D : List Nat} {e n1 : Nat} (hD : ∀ x ∈ D, x = 0 ∨ x 
 theorem factor_rots {D : List Nat} {cols slots bsgs : Nat} {rf : Bool}
     (hb : ∀ d ∈ D, d < (if rf then 2 * slots else slots))
     (hmc : (if rf then 2 * slots else slots) ≤ cols)
-    (hnarrow : D.length < 3 → ∃ e, ∀ x ∈ D, x = 0 ∨ x = 2 ^ e) :
-    (∀ x ∈ ltRequested D cols bsgs, x ∈ addMatrixRot D (findBestBSGSRatio D cols bsgs) slots rf) ∧
-    (∀ x ∈ addMatrixRot D (findBestBSGSRatio D cols bsgs) slots rf,
-        (x = 0 ∧ D.length < 3) ∨ x ∈ ltRequested D cols bsgs) := by
+    (hnarrow : D.length < 3 → ∃ e, ∀ x ∈ D, x = 0 ∨ x = 2 ^ e) (x : Nat) :
+    x ∈ ltRequested D cols bsgs ↔ x ∈ addMatrixRot D (findBestBSGSRatio D cols bsgs) slots rf := by
   have hbc : ∀ d ∈ D, d < cols := fun d hd => lt_of_lt_of_le (hb d hd) hmc
+  rw [mem_ltRequested hbc]
   by_cases hw : 3 ≤ D.length
-  · constructor
-    · intro x hx
-      exact (mem_addMatrixRot_wide hw hb).mpr ((mem_ltRequested hbc).mp hx)
-    · intro x hx
-      exact Or.inr ((mem_ltRequested hbc).mpr ((mem_addMatrixRot_wide hw hb).mp hx))
+  · rw [mem_addMatrixRot_wide hw hb]
   · have hn : D.length < 3 := by omega
     obtain ⟨e, he⟩ := hnarrow hn
     obtain ⟨s1, s2⟩ := split_narrow he (findBest_pow D cols bsgs)
+    rw [mem_addMatrixRot_narrow hn]
     constructor
-    · intro x hx
-      exact (mem_addMatrixRot_narrow hn).mpr (s1 x ((mem_ltRequested hbc).mp hx))
-    · intro x hx
-      rcases s2 x ((mem_addMatrixRot_narrow hn).mp hx) with rfl | h
-      · exact Or.inl ⟨rfl, hn⟩
-      · exact Or.inr ((mem_ltRequested hbc).mpr h)
+    · intro hx
+      exact ⟨s1 x hx, (mem_splitRots.mp hx).1⟩
+    · rintro ⟨hx, hx0⟩
+      rcases s2 x hx with h | h
+      · exact absurd h hx0
+      · exact h
 
 /-! ### all matrices of a literal -/
 
@@ -182,8 +178,7 @@ theorem loop_rots (d : MatLit) (logN : Nat) :
     ∀ (ms : List Nat) (first : Bool) (level : Nat), ms.sum ≤ level → (∀ m ∈ ms, 1 ≤ m) → level ≤ d.logSlots →
       let sf := (decide (d.logSlots < logN - 1) && !d.encode && d.repack)
       let fs := indexLoop d sf first level ms
-      (∀ x ∈ reqOver d logN fs, x ∈ helperGo d logN fs first) ∧
-      (∀ x ∈ helperGo d logN fs first, (x = 0 ∧ ∃ D ∈ fs, D.length < 3) ∨ x ∈ reqOver d logN fs)
+      ∀ x, x ∈ reqOver d logN fs ↔ x ∈ helperGo d logN fs first
   | [], _, _, _, _, _ => by
     intro sf fs
     simp [fs, indexLoop, reqOver, helperGo]
@@ -191,7 +186,7 @@ theorem loop_rots (d : MatLit) (logN : Nat) :
     intro sf fs
     have hm : 1 ≤ m := hpos m (List.mem_cons_self ..)
     have hsum' : ms.sum + m ≤ level := by simpa [List.sum_cons, Nat.add_comm] using hsum
-    obtain ⟨ih1, ih2⟩ := loop_rots d logN ms false (level - m) (by omega)
+    have ih := loop_rots d logN ms false (level - m) (by omega)
       (fun x hx => hpos x (List.mem_cons_of_mem _ hx)) (by omega)
     -- the helper's `repack` flag is the `special` flag of the index computation
     have hflag : (!d.encode && decide (d.logSlots < logN - 1) && first && d.repack) = (first && sf) := by
@@ -213,59 +208,39 @@ theorem loop_rots (d : MatLit) (logN : Nat) :
         split
         · omega
         · exact le_rfl
-    obtain ⟨f1, f2⟩ := factor_rots (D := D) (cols := d.dslots logN) (slots := 2 ^ d.logSlots) (bsgs := d.logBSGS)
+    have f := factor_rots (D := D) (cols := d.dslots logN) (slots := 2 ^ d.logSlots) (bsgs := d.logBSGS)
       (rf := (first && sf)) hb hmc (factorIndex_narrow d _ level m)
     rw [hfs]
-    constructor
-    · intro x hx
-      simp only [reqOver, List.flatMap_cons, List.mem_append] at hx
-      simp only [helperGo, hflag, List.mem_append]
-      rcases hx with hx | hx
-      · exact Or.inl (f1 x hx)
-      · exact Or.inr (ih1 x hx)
-    · intro x hx
-      simp only [helperGo, hflag, List.mem_append] at hx
-      simp only [reqOver, List.flatMap_cons, List.mem_append, List.mem_cons]
-      rcases hx with hx | hx
-      · rcases f2 x hx with ⟨rfl, hn⟩ | h
-        · exact Or.inl ⟨rfl, D, Or.inl rfl, hn⟩
-        · exact Or.inr (Or.inl h)
-      · rcases ih2 x hx with ⟨rfl, D', hD', hn⟩ | h
-        · exact Or.inl ⟨rfl, D', Or.inr hD', hn⟩
-        · exact Or.inr (Or.inr h)
+    intro x
+    simp only [reqOver, List.flatMap_cons, List.mem_append, helperGo, hflag]
+    rw [f x]
+    have := ih x
+    simp only [reqOver] at this
+    rw [this]
 
-/-- EVALUATOR ⊆ HELPER for one DFT -/
-theorem dftRequested_sub (d : MatLit) (logN : Nat) (hv : d.valid) :
-    ∀ x ∈ dftRequested d logN, x ∈ helperRotations d logN := by
-  intro x hx
-  unfold dftRequested at hx
-  rw [genMatricesIndex_eq, dslots_eq] at hx
-  unfold helperRotations
-  rw [mem_dedupL, List.mem_append]
-  right
-  exact (loop_rots d logN (mergeSched d) true d.logSlots (mergeSched_sum d) (mergeSched_pos d hv) le_rfl).1 x hx
-
-/-- HELPER ⊆ EVALUATOR ∪ {0, the sparse repacking rotation} for one DFT -/
-theorem helperRotations_sub (d : MatLit) (logN : Nat) (hv : d.valid) :
-    ∀ x ∈ helperRotations d logN,
-      (x = 0 ∧ ∃ D ∈ computeIndexMap d logN, D.length < 3) ∨ x ∈ dftRequested d logN ∨
-      (x = 2 ^ d.logSlots ∧ d.sparseRepack logN = true ∧ d.encode = true) := by
-  intro x hx
-  unfold helperRotations at hx
-  rw [mem_dedupL, List.mem_append] at hx
-  rcases hx with hx | hx
-  · right; right
-    split at hx
-    · rename_i h
-      simp only [Bool.and_eq_true] at h
-      simp only [List.mem_cons, List.not_mem_nil, or_false] at hx
-      exact ⟨hx, h.1, h.2⟩
-    · simp at hx
-  · rcases (loop_rots d logN (mergeSched d) true d.logSlots (mergeSched_sum d) (mergeSched_pos d hv) le_rfl).2 x hx with h | h
-    · exact Or.inl h
-    · right; left
-      unfold dftRequested
-      rw [genMatricesIndex_eq, dslots_eq]
-      exact h
+/-- HELPER = EVALUATOR ∪ {the sparse repacking rotation of CoeffsToSlots} for one DFT -/
+theorem mem_helperRotations (d : MatLit) (logN : Nat) (hv : d.valid) (x : Nat) :
+    x ∈ helperRotations d logN ↔
+      x ∈ dftRequested d logN ∨ (x = 2 ^ d.logSlots ∧ d.sparseRepack logN = true ∧ d.encode = true) := by
+  unfold helperRotations dftRequested
+  rw [mem_dedupL, List.mem_append, genMatricesIndex_eq, dslots_eq]
+  have h := loop_rots d logN (mergeSched d) true d.logSlots (mergeSched_sum d) (mergeSched_pos d hv) le_rfl x
+  simp only [reqOver] at h
+  unfold computeIndexMap
+  rw [← h]
+  constructor
+  · rintro (hx | hx)
+    · right
+      split at hx
+      · rename_i hc
+        simp only [Bool.and_eq_true] at hc
+        simp only [List.mem_cons, List.not_mem_nil, or_false] at hx
+        exact ⟨hx, hc.1, hc.2⟩
+      · simp at hx
+    · exact Or.inl hx
+  · rintro (hx | ⟨rfl, h1, h2⟩)
+    · exact Or.inr hx
+    · left
+      simp [h1, h2]
 
 end Lattigo.Proofs.Bootstrap
